@@ -73,16 +73,18 @@ def linear_spline(
             .expand(*inputs.shape, -1)
         )
 
-        slopes = (cdf[..., 1:] - cdf[..., :-1]) / (
-            bin_boundaries[..., 1:] - bin_boundaries[..., :-1]
-        )
-        offsets = cdf[..., 1:] - slopes * bin_boundaries[..., 1:]
+        # The slope of bin k is pdf_k / bin_width, the quantity the forward pass uses.
+        # (Differences of the cumulative sums lose a bin whose mass is below the floating
+        # point resolution of the cdf: slope 0, then 0 / 0.)  The line of each bin is
+        # anchored at its right knot, which is exact at the upper end of the interval.
+        slopes = pdf * num_bins
 
         inv_bin_idx = inv_bin_idx.unsqueeze(-1)
         input_slopes = slopes.gather(-1, inv_bin_idx)[..., 0]
-        input_offsets = offsets.gather(-1, inv_bin_idx)[..., 0]
+        input_right_cdf = cdf[..., 1:].gather(-1, inv_bin_idx)[..., 0]
+        input_right_boundaries = bin_boundaries[..., 1:].gather(-1, inv_bin_idx)[..., 0]
 
-        outputs = (inputs - input_offsets) / input_slopes
+        outputs = input_right_boundaries + (inputs - input_right_cdf) / input_slopes
         outputs = torch.clamp(outputs, 0, 1)
 
         logabsdet = -torch.log(input_slopes)
